@@ -88,7 +88,15 @@ where
         );
 
         debug!("Writing ClockErrorBound to shared memory {:?}", ceb);
+        #[cfg(feature = "verif")]
+        if crate::verif::fault_point("writer:before_write") {
+            return;
+        }
         self.writer.write(&ceb);
+        #[cfg(feature = "verif")]
+        if crate::verif::fault_point("writer:after_write") {
+            return;
+        }
     }
 
     /// Process a chrony clock update message.
@@ -110,6 +118,10 @@ where
 
         // This message contains updated clock synchronization information from chrony Tracking
         // data. Extract and convert info, and keep track of this latest update.
+        #[cfg(feature = "verif")]
+        if crate::verif::fault_point("writer:in_clock_update") {
+            return;
+        }
         let (mut bound_nsec, clock_status) = extract_bound_from_tracking(tracking);
         bound_nsec += phc_error_bound;
         self.shm_clock_state = self.shm_clock_state.apply_chrony(clock_status);
@@ -140,6 +152,10 @@ where
         // TODO: this may be best refactored to have this logic embedded in the FSM, instead of
         // having it split between the chrony poller and the SHM Writer, once the
         // no Clock Distruption FSM is removed from the code base.
+        #[cfg(feature = "verif")]
+        if crate::verif::fault_point("writer:in_missing_update") {
+            return;
+        }
         let chrony_status = match within_grace_period {
             true => ChronyClockStatus::FreeRunning,
             false => ChronyClockStatus::Unknown,
@@ -215,6 +231,10 @@ where
 
     // Keep on running forever until we receive the instruction to stop.
     while keep_running {
+        #[cfg(feature = "verif")]
+        if crate::verif::fault_point("writer:loop_top") {
+            return;
+        }
         match ctx.mbox.recv() {
             Ok(Message::ClockErrorBoundData((tracking, phc_error_bound, as_of))) => {
                 // TODO use phc_error_bound here
@@ -237,12 +257,20 @@ where
             Ok(msg) => info!("Received message without handler {:?}", msg),
             Err(e) => error!("Error reading from MPSC channel: {:?}", e),
         }
+        #[cfg(feature = "verif")]
+        if crate::verif::fault_point("writer:after_message") {
+            return;
+        }
     }
 }
 
 /// Entry point to this thread.
 pub fn run(ctx: Context, max_drift_ppb: u32) {
     info!("Starting shared memory writer thread");
+    #[cfg(feature = "verif")]
+    if crate::verif::fault_point("writer:startup") {
+        return;
+    }
     // Create a writer to update the clock error bound shared memory segment
     let writer = match ShmWriter::new(Path::new(CLOCKBOUND_SHM_DEFAULT_PATH)) {
         Ok(writer) => {
@@ -258,6 +286,10 @@ pub fn run(ctx: Context, max_drift_ppb: u32) {
         }
     };
 
+    #[cfg(feature = "verif")]
+    if crate::verif::fault_point("writer:after_new") {
+        return;
+    }
     // Pack the writer into the updater structure.
     let updater = ShmUpdater::new(writer, max_drift_ppb);
     process_messages(ctx, updater)
